@@ -217,6 +217,49 @@ static void inv_grow(void) {
     errno = 0; { size_t ts = G->list->datasum; void *d = qgrow_toarray(G, NULL); iv_data("toarraynosize", d, ts, true); }
 }
 
+
+/* ---- `lockprobe` (THREADSAFE containers): lock(); a nested public call (it takes the lock again,
+ * qvector's addlast three levels deep); ANOTHER thread tries the container's mutex: it must be
+ * busy (the outer lock() is still in force); unlock(); the other thread tries again: free.
+ * Prints `lockprobe <result of the nested call> held=<0|1> after=<0|1>`; `nolock` for a container
+ * without a mutex. Not a windowed call. */
+#include <pthread.h>
+#include "qinternal.h"
+static void *probe_thread(void *m) {
+    pthread_mutex_t *mx = &((qmutex_t *) m)->mutex;
+    int r = pthread_mutex_trylock(mx);
+    if (r == 0) pthread_mutex_unlock(mx);
+    return (void *) (intptr_t) (r != 0);          /* 1 = busy */
+}
+static int probe_busy(void *qmutex) {
+    pthread_t t; void *res = NULL;
+    if (pthread_create(&t, NULL, probe_thread, qmutex) != 0) return -1;
+    pthread_join(t, &res);
+    return (int) (intptr_t) res;
+}
+
+static void do_lockprobe(void) {
+    qlist_t *l = inner();
+    unsigned char x = 'L';
+    printf("lockprobe ");
+    if (l->qmutex == NULL) {
+        bool r; errno = 0;
+        r = kind == K_LIST ? qlist_addlast(L, &x, 1) : kind == K_QUEUE ? qqueue_push(Q, &x, 1)
+          : kind == K_STACK ? qstack_push(S, &x, 1) : qgrow_add(G, &x, 1);
+        int e = errno; res_bool(r, e); printf(" nolock");
+        return;
+    }
+    qlist_lock(l);
+    errno = 0;
+    bool r = kind == K_LIST ? qlist_addlast(L, &x, 1) : kind == K_QUEUE ? qqueue_push(Q, &x, 1)
+           : kind == K_STACK ? qstack_push(S, &x, 1) : qgrow_add(G, &x, 1);
+    int e = errno;
+    int held = probe_busy(l->qmutex);
+    qlist_unlock(l);
+    int after = probe_busy(l->qmutex);
+    res_bool(r, e); printf(" held=%d after=%d", held, after);
+}
+
 static int do_list(int nw, char **w) {
     const char *op = w[0];
     bytes_t a = {0, 0};
@@ -503,7 +546,8 @@ int main(void) {
             if (p == NULL) { printf("null %s live=%ld\n", errname(E), live_blocks()); fflush(stdout); continue; }
             kind = k;
             printf("ok"); done = 1;
-        } else if (kind == K_LIST) done = do_list(nw, w);
+        } else if (kind != K_NONE && !strcmp(w[0], "lockprobe") && nw == 1) { do_lockprobe(); done = 1; }
+        else if (kind == K_LIST) done = do_list(nw, w);
         else if (kind == K_QUEUE || kind == K_STACK) done = do_qs(nw, w);
         else if (kind == K_GROW) done = do_grow(nw, w);
         if (!done) { printf("bad-op\n"); fflush(stdout); continue; }
